@@ -806,6 +806,11 @@ def stream_struct(tier, seed):
                 group(parts[2], bytes.fromhex(parts[3]) if parts[3] != "-" else b"", [], 3, param=int(parts[4]), tag="regress", maxbrk=4)
                 if int(parts[5]) >= 0:
                     lines.append("P g%d.b%s %s %s %s %s" % (g - 1, parts[5], parts[2], parts[3], parts[4], parts[5]))
+    # transactions with a script of 2^30 bytes (thorough: also 2^32): weight, preimage length and consumed length where
+    # 32-bit intermediate arithmetic would wrap (implementation only, scripted and judged inside the harness)
+    lines.append("B robigtx30 30")
+    if not quick:
+        lines.append("B robigtx32 32")
     return lines, meta
 
 
